@@ -65,6 +65,7 @@ type callM struct {
 	placed   bool
 	bindDone bool // its completion callback (a BIND's) is running
 	exD      *expect // degraded serial run: the stand-in clause only
+	retSeq   int     // event number of the pick's return (0 while it runs)
 	ex       *expect
 }
 
@@ -137,6 +138,11 @@ type Model struct {
 	readingOut           [2]bool         // C07: readings of "last response" contradicted so far in this run
 	aggKnown             bool
 	pds                  map[int]*donePending
+	doneLog              []doneRec // completions that have returned: channel and event number (bursts only)
+	growths              []growthRec
+	lastSwapOld          int // connection replaced by the most recent takeover, and that report's event number
+	lastSwapSeq          int
+	lastSwapEnd          int // event number at which that report had been processed (0: still running)
 	// Coverage probes.
 	Probes map[string]int
 	hash   uint64
@@ -536,6 +542,7 @@ func (m *Model) opStart(ev Event) {
 			if o.state == connectivity.Ready {
 				// The replacement takes over its channel.
 				o.swapOld, o.swapCh = ch.cur, ch.idx
+				m.lastSwapOld, m.lastSwapSeq, m.lastSwapEnd = ch.cur, ev.Seq, 0
 				old := m.conns[ch.cur]
 				old.role = roleOld
 				c.role = rolePool
@@ -599,6 +606,76 @@ func (m *Model) afterReadyChange(ch *chanM) {
 	}
 }
 
+// growthJustified (C03, concurrent bursts, schedule-independent): "a channel is
+// added only by a call that finds every READY channel at or above the
+// watermark". The counts a pick reads are not known, but bounded: a channel of
+// the pick's picker cannot have shown more streams than the calls placed on it
+// and not yet completing when the channel is added, plus the other picks that
+// overlap this one and end up on that channel (they may have counted themselves
+// there already), plus the completions of its calls that were still running when
+// this pick started or began since (their decrement may have come after the
+// read). A channel whose bound is below the watermark was read below it: the
+// growth is not justified under any interleaving. Recorded when the channel is
+// added, judged once the burst has quiesced (where every overlapping pick went
+// is known then).
+//
+//go:norace
+func (m *Model) growthJustified(ev Event) {
+	c := m.s.calls[ev.Call]
+	cm := m.calls[ev.Call]
+	if cm == nil || cm.rr || c.PubIdx < 0 || c.PubIdx >= len(m.pubs) || m.cfg.wm <= 0 {
+		return
+	}
+	g := growthRec{call: ev.Call, conn: ev.Conn, inv: cm.invSeq, seq: ev.Seq, op: ev.Op}
+	for _, r := range m.pubs[c.PubIdx].ready {
+		ch := m.chans[r]
+		n := ch.inflight
+		for _, pd := range m.pds {
+			if pd.ch == ch {
+				n++ // completion running: its decrement may not have happened
+			}
+		}
+		g.ready = append(g.ready, r)
+		g.base = append(g.base, n)
+	}
+	m.growths = append(m.growths, g)
+}
+
+type growthRec struct {
+	call, conn, inv, seq, op int
+	ready, base              []int
+}
+
+// GrowthBurstCheck judges the recorded growths of a quiesced burst.
+//
+//go:norace
+func (m *Model) GrowthBurstCheck() {
+	for _, g := range m.growths {
+		for i, r := range g.ready {
+			ub, picks, dones := g.base[i], 0, 0
+			for id, o := range m.calls {
+				// placed on r, started before the channel was added, and not already
+				// counted in base (it had not returned by then)
+				if id != g.call && o.placed && o.ch == r && o.invSeq < g.seq && o.retSeq > g.seq {
+					picks++
+				}
+			}
+			for _, d := range m.doneLog {
+				if d.ch == r && d.ret > g.inv && d.ret < g.seq {
+					dones++ // returned while this pick ran: counted at the read, perhaps
+				}
+			}
+			ub += picks + dones
+			m.probe("concurrent_growth_bound_judged")
+			if ub < m.cfg.wm {
+				m.vAlways("C03", "growth-although-unsaturated", "concurrent", fmt.Sprintf("call %d added connection sc%d to the pool although channel %d, READY in its picker, cannot have shown it more than %d streams (placed and not completed %d, overlapping picks that went there %d, completions overlapping this pick %d) and the watermark is %d: a channel is added only by a call that finds every READY channel at or above the watermark", g.call, g.conn, r, ub, g.base[i], picks, dones, m.cfg.wm), g.op)
+				return
+			}
+		}
+	}
+	m.growths = nil
+}
+
 //go:norace
 func (m *Model) newSC(ev Event) {
 	switch ev.Phase {
@@ -639,6 +716,9 @@ func (m *Model) newSC(ev Event) {
 				}
 			}
 			m.probe("concurrent_growth_judged")
+		}
+		if m.track && !m.degraded && ev.Phase == PhPick {
+			m.growthJustified(ev)
 		}
 		ch := &chanM{idx: len(m.chans), cur: ev.Conn, state: connectivity.Idle, repl: -1, created: ev.At}
 		ch.lastResp[0], ch.lastResp[1] = ev.At, ev.At
@@ -731,6 +811,9 @@ func (m *Model) opEnd(ev Event) {
 		return
 	}
 	defer func() { m.op = nil; m.stateHash() }()
+	if o.swapOld >= 0 && o.swapOld == m.lastSwapOld && m.lastSwapEnd == 0 {
+		m.lastSwapEnd = ev.Seq
+	}
 	if ev.Note == "panic" {
 		return
 	}
@@ -1066,6 +1149,7 @@ func (m *Model) pickReturn(ev Event) {
 		return
 	}
 	cm.returned = true
+	cm.retSeq = ev.Seq
 	cm.start = ev.At
 	if c.PubIdx < 0 || c.PubIdx >= len(m.pubs) {
 		return
@@ -1079,6 +1163,11 @@ func (m *Model) pickReturn(ev Event) {
 			// during a concurrent burst a pick may overlap the balancer callback that
 			// completes a refresh of its channel and still see the old connection
 			placedCh = ch.idx
+		} else if ch != nil && cn.role == roleOld && m.lastSwapOld == res.Conn && (m.lastSwapEnd == 0 || m.lastSwapEnd > cm.invSeq) {
+			// the pick overlapped the report that made the replacement take over
+			// (FlagOverlap) and saw the connection that was current when it looked
+			placedCh = ch.idx
+			m.probe("pick_overlapping_takeover_got_old_connection")
 		} else if ch == nil || cn.role != rolePool {
 			m.v("C02", "placed-on-non-pool-connection", "", fmt.Sprintf("call %d placed on sc%d which is not the current connection of any channel", c.ID, res.Conn), ev.Op)
 		} else {
@@ -1440,6 +1529,8 @@ func (m *Model) PredictRR(cm *callM) (int, bool) {
 
 // ---------------------------------------------------------------- completions
 
+type doneRec struct{ ch, ret int }
+
 type donePending struct {
 	must    [2]bool
 	ambig   bool // the statement does not decide this completion under any reading (start == last response)
@@ -1528,6 +1619,9 @@ func (m *Model) doneReturn(ev Event) {
 	cm := m.calls[ev.Call]
 	pd := m.pds[ev.Call]
 	delete(m.pds, ev.Call)
+	if pd != nil && m.track {
+		m.doneLog = append(m.doneLog, doneRec{ch: pd.ch.idx, ret: ev.Seq})
+	}
 	if cm != nil && cm.bindDone {
 		cm.bindDone = false
 		defer func() {
